@@ -197,7 +197,8 @@ def main(ctx):
     need = ["history_execs", "history_ok",
             "nonce_owned", "encrypted_payload_examined", "secrecy_messages_checked",
             "clear_by_config", "tamper_execs", "tamper_detected", "after_fault_clean_ok",
-            "handler_invoked_positive", "structural_detected", "fault:field", "fault:trunc-end"]
+            "handler_invoked_positive", "structural_detected", "fault:field", "fault:trunc-end",
+            "fault:defined-error-class"]
     for d in DIRECTIONS:
         need += ["recovered:" + d, "tamper_detected:" + d, "swap_detected:" + d,
                  "wrongkey_detected:" + d, "unencryptable:" + d]
@@ -531,7 +532,12 @@ def check_outcome_clean(sc, box, args, kwargs, uri, err_uri):
             if got != exp:
                 bad.append(("recovery", "result %r expected %r" % (got, exp)))
     else:
-        if kind != "err" or type(val) is not ApplicationError:
+        dcls = getattr(sc, "defined", {}).get(err_uri)
+        if kind == "err" and dcls is not None and type(val) is dcls:
+            # the caller registered a class for this error URI
+            if (norm(list(val.args)), norm(val.kwargs)) != (a, k):
+                bad.append(("recovery", "error %r %r expected %r %r" % (val.args, val.kwargs, a, k)))
+        elif kind != "err" or type(val) is not ApplicationError:
             bad.append(("recovery", "expected ApplicationError(%s), got %r" % (err_uri, box)))
         elif (val.error, norm(list(val.args)), norm(val.kwargs)) != (err_uri, a, k):
             bad.append(("recovery", "error %r expected %r" % (
@@ -663,6 +669,14 @@ def run_clean(layout, d, ser, p, uri, err_uri, stats):
     return sc, box, bad
 
 
+class _DefinedError(Exception):
+    """caller-side class for an error URI; constructible from anything, also from nothing"""
+
+    def __init__(self, *args, **kwargs):
+        Exception.__init__(self, *args)
+        self.kwargs = kwargs
+
+
 def run_fault(layout, d, ser, fault, stats, uri=None, err_uri=None):
     """-> (scenario, box, bad, applied)"""
     uri = uri or (TOPIC_A if d == "publish" else PROC_A)
@@ -685,6 +699,15 @@ def run_fault(layout, d, ser, fault, stats, uri=None, err_uri=None):
         bad = check_fault_outcome(sc, box, stats)
         return sc, box, bad, 1
     sc = Scenario(layout, ser, d, uri, err_uri)
+    if d == "error" and fault.get("define"):
+        # the caller has registered exception classes for the error URIs in play: a ciphertext that
+        # fails authentication must still surface as an encryption error, not as such a class
+        sc.defined = {}
+        for u in (err_uri, ERR_B, ERR_S):
+            cls = type("Defined_" + u.split(".")[-1], (_DefinedError,), {})
+            sc.orig.define(cls, u)
+            sc.defined[u] = cls
+        stats["error_uri_defined_at_caller"] += 1
     if t == "swap-uri":
         if d in ("call", "publish"):
             sc.fault = dict(fault, armed=True, to=fault.get("to") or sc.other)
@@ -784,6 +807,10 @@ def job(a):
             else:
                 faults.append({"type": "swap-uri", "to_err": ERR_S})
         faults += [{"type": "wrongkey", "variant": v} for v in WRONGKEY[d]]
+        if d == "error":
+            faults += [dict(f, define=True) for f in faults
+                       if f["type"] in ("trunc-end", "field", "swap-uri", "wrongkey", "one-octet")]
+            faults += [{"type": "xor", "pos": pos, "mask": 0x80, "define": True} for pos in (0, 30, 45)]
         for fault in faults:
             sc, box, bad, applied = run_fault(layout, d, ser, fault, st)
             col.evals += 1
@@ -792,6 +819,8 @@ def job(a):
             t = fault["type"]
             st["fault:" + (fault.get("field") and "field" or t)] += 1
             label = t
+            if fault.get("define"):
+                st["fault:defined-error-class"] += 1
             if t == "wrongkey":
                 label = "wrongkey-" + fault["variant"]
             elif t == "field":
@@ -1111,7 +1140,7 @@ def h_sequences(depth):
             yield list(seq)
 
 
-UNENCRYPTABLE = ["set", "uuid", "object"]
+UNENCRYPTABLE = ["set", "uuid", "object", "lone-surrogate"]
 
 
 def _unenc_value(vi):
@@ -1120,6 +1149,9 @@ def _unenc_value(vi):
         return {MARK + "-in-set"}
     if vi == 1:
         return uuid.UUID(bytes=(MARK.encode() * 3)[:16])
+    if vi == 3:
+        # a str no UTF-8 encoder can carry (e.g. a surrogateescape'd file name)
+        return "abc\ud800def-" + MARK
     return _Opaque()
 
 
